@@ -15,7 +15,7 @@ import (
 // with the same JSON) get each other's decoded nodes.
 
 func init() {
-	Register(&Rule{ID: "CACHETYPES", Props: []string{"C11", "C02", "C05"}, Min: 2,
+	Register(&Rule{ID: "CACHETYPES", Props: []string{"C11", "C02", "C05"}, Min: 1,
 		Doc: "every key handed to NodeCache.Get/Add/Contains in package mast is built from something that identifies the decode configuration of the tree (the types of Mast.zeroKey / Mast.zeroValue), not only from the store prefix and the node name.",
 		Run: runCACHETYPES})
 }
@@ -45,14 +45,23 @@ func runCACHETYPES(c *Ctx) {
 			}
 		}
 	}
+	// one finding for the cache as a whole (where the key is put together is an implementation detail that helper
+	// extraction moves around)
+	var bad []string
+	var first ssa.Instruction
 	for _, fn := range order {
-		pos := P.InstrPos(perFn[fn])
 		if okFn[fn] {
-			c.OK(pos, "node cache keys in "+ir.FuncName(fn), "include the tree's key/value types", false)
+			c.OK(P.InstrPos(perFn[fn]), "node cache keys in "+ir.FuncName(fn), "include the tree's key/value types", false)
 		} else {
-			c.Violation(fn, pos, "cache key does not identify the decode configuration",
-				"the cache key is the store prefix and the node name only, while the cached object is the node as decoded for this tree's key and value types: a tree with other types sharing the cache and the store receives it for byte-identical nodes (Get fails with 'don't know how to compare int64 with int' or panics in reflect.Set), and what a captured root shows depends on which tree touched the cache first")
+			bad = append(bad, ir.FuncName(fn)+" ("+P.InstrPos(perFn[fn])+")")
+			if first == nil {
+				first = perFn[fn]
+			}
 		}
+	}
+	if len(bad) > 0 {
+		c.Violation(nil, P.InstrPos(first), "node cache keys do not identify the decode configuration",
+			"the cache key is the store prefix and the node name only ("+strings.Join(bad, ", ")+"), while the cached object is the node as decoded for this tree's key and value types: a tree with other types sharing the cache and the store receives it for byte-identical nodes (Get fails with 'don't know how to compare int64 with int' or panics in reflect.Set), and what a captured root shows depends on which tree touched the cache first")
 	}
 }
 
